@@ -346,7 +346,7 @@ func (e *Engine) goStmt(fr *frame, x *ssa.Go) {
 	}
 	if e.goInline {
 		e.res.Stubs["go (inline) "+name]++
-		e.invoke(fr, d.fn, d.args, d.call, nil)
+		e.raceSpawn(nil, x.Pos(), func() { e.invoke(fr, d.fn, d.args, d.call, nil) })
 		return
 	}
 	e.res.Stubs["go (not scheduled) "+name]++
@@ -450,9 +450,9 @@ func (e *Engine) selectStmt(fr *frame, x *ssa.Select) Value {
 	return &Tuple{vals: vals}
 }
 
-// memEvent records a memory access for the race analysis (threads.go).
+// memEvent records a memory access for the race query (races.go).
 func (e *Engine) memEvent(c *Cell, write bool, pos token.Pos) {
-	if e.threads != nil && e.threads.recording && !e.spec {
-		e.threads.access(e, c, write, pos)
+	if e.race != nil {
+		e.raceAccessCell(c, write, pos, e.raceAtomic)
 	}
 }
